@@ -7,7 +7,7 @@ from . import common
 
 ID = 'C11'
 LEVEL = 'exploration'
-BUDGET = {'quick': (8000, 70.0), 'thorough': (300000, 1500.0)}
+BUDGET = {'quick': (50000, 80.0), 'thorough': (600000, 1500.0)}
 RULE = ('two real J1939-22 stacks; a generated sequence of 1..12 send_pgn calls with 1..60 bytes, PDU1/PDU2 PGNs, 1-3 destinations incl. global, '
         'time_limit in {0, 1..200 ms}, FEFF end to end and FBFF decoded on the bus by the reference codec only, issued from the application context or '
         'from a timer callback at instants drawn over the job thread\'s sleep; every frame on the bus is decoded independently and matched against the '
